@@ -217,6 +217,9 @@ class TemporalEntityComponent(EntityComponent):
         """
         elements = dict()
         counter = 1
+        if self.entity_type in (EntityType.TIME, EntityType.DATE) and str(step).isdigit() and int(step) == 0:
+            # the enumeration below advances by the step: a step of 0 would never reach the end of the range
+            raise Exception(f"Entity {self.get_name()}, the length of a step must be greater than 0")
         try:
             if self.entity_type == EntityType.TIME:
                 start = datetime.strptime(lhs_value, '%I:%M %p')
